@@ -79,6 +79,11 @@ NextLogEncode ==
   \/ \E w \in 1..MaxWidth, off \in {0, -1048576, 1048576} :
         vec' = Ev("log_encode", [inst |-> EncInst("integer", B(R(IF off = 1048576 THEN off - w ELSE off), R(IF off = 1048576 THEN off ELSE off + w))), vid |-> 4])
   \/ \E w \in {1, 2, 5, 7, 8, 100} : vec' = Ev("log_encode", [inst |-> EncInstUnsorted(B(R(0), R(w))), vid |-> 4])
+  \* ends one grid step (2^-26, far inside the SDK's 1e-6 tolerances) off an integer, on either side: the range is
+  \* ceil(l)..floor(u) exactly, so an end just outside an integer excludes it
+  \/ \E k \in -2..2, m \in -2..4, dl \in {-1, 1}, dh \in {-1, 1} :
+        /\ k * 67108864 + dl <= m * 67108864 + dh
+        /\ vec' = Ev("log_encode", [inst |-> EncInst("integer", B(Mk(k * 67108864 + dl, 67108864), Mk(m * 67108864 + dh, 67108864))), vid |-> 4])
   \/ \E bad \in {"unknown", "continuous", "binary", "nobound", "inf_hi", "inf_lo", "inf_both", "empty"} :
         vec' = Ev("log_encode", [inst |-> CASE bad = "continuous" -> EncInst("continuous", B(R(0), R(3)))
                                             [] bad = "binary" -> EncInst("binary", B(R(0), R(1)))
